@@ -22,14 +22,15 @@ VARIABLES l, tid, lastlog, viol, div, stats, ghost
 tvars == <<l, tid, lastlog, viol, div, stats, ghost>>
 allvars == <<vars, cfgVars, tvars>>
 
-TrIPSeq == <<"ip1", "ip2", "ip3", "ip4", "ip5", "ip6", "ip7", "ip8">>
+TrIPSeq == <<"ip1", "ip2", "ip3", "ip4", "ip5", "ip6", "ip7", "ip8", "ip101", "ip102", "ip103">>
 Has(e, f) == f \in DOMAIN e
 ToSet(s) == {s[i] : i \in 1..Len(s)}
 
 (* ---------------------------------------------------------------- log -> model values *)
 StateKeys == {"mem", "store", "pools", "cm", "alive", "pods", "lpods", "pevq", "work", "fev", "sts", "dp", "poolobj",
               "cloud", "podlocks", "dplocks", "ops"}
-PoolsOfLog(p) == [id \in DOMAIN p |-> [subnets |-> ToSet(p[id].subnets), ips |-> ToSet(p[id].ips)]]
+\* info: what the binding annotation must carry with an IP of the pool (vlan, mask bits, gateway)
+PoolsOfLog(p) == [id \in DOMAIN p |-> [subnets |-> ToSet(p[id].subnets), ips |-> ToSet(p[id].ips), info |-> p[id].info]]
 Strip(m) == [ip \in DOMAIN m |-> [key |-> m[ip].key, policy |-> m[ip].policy, uid |-> m[ip].uid,
                                    node |-> m[ip].node, lab |-> m[ip].lab]]
 MemOfLog(m) == [ip \in DOMAIN m |-> [key |-> m[ip].key, policy |-> m[ip].policy, uid |-> m[ip].uid,
@@ -105,19 +106,31 @@ NormArgs(name, a) ==
       [] name = "AllocateInSubnetWithKey" -> [oldK |-> a.oldK, newK |-> a.newK, subnet |-> a.subnet, attr |-> AttrOfLog(a.attr)]
       [] name = "ReserveIP" -> [oldK |-> a.oldK, newK |-> a.newK, attr |-> AttrOfLog(a.attr)]
       [] name \in {"UpdateAttr", "AllocateSpecificIP"} -> [key |-> a.key, ip |-> a.ip, attr |-> AttrOfLog(a.attr)]
+      [] name = "binding" -> [pod |-> a.pod, node |-> a.node, uid |-> a.uid, ann |-> a.ann]
       [] OTHER -> a
 NextMatches(w, id, e) ==
     IF e.next.call = "done" THEN id \notin DOMAIN w.ops
     ELSE /\ id \in DOMAIN w.ops
          /\ LET c == Call(w.ops[id]) IN c.name = e.next.call /\ c.args = NormArgs(e.next.call, e.next.args)
 
+\* the nodes a finished filter offered are those the model's filter offers
+FilterResMatches(w, e) ==
+    (e.typ = "filter" /\ Has(e, "res") /\ e.res.ok) =>
+        LET pn == ops[e.op].loc.podname IN pn \in DOMAIN w.filtered /\ w.filtered[pn].nodes = ToSet(e.res.nodes)
+
 Hint(e) == IF Has(e, "ret") /\ Has(e.ret, "ips") THEN [ips |-> e.ret.ips] ELSE [x |-> 0]
+
+\* a new incarnation of a pod name may ask for other ranges than the previous one (the workload's template changed)
+CreatePodWR(name, rr) ==
+    LET w == CreatePodW(name)
+        p == [w.pods[name] EXCEPT !.ranges = rr] IN
+    [w EXCEPT !.pods = Put(pods, name, p), !.pevq = Append(pevq, PodEv("add", NoPod, p))]
 
 (* ---------------------------------------------------------------- proposed successor worlds per line *)
 Proposed(e) ==
     CASE e.ev = "Step" ->
            IF alive /\ e.op \in DOMAIN ops /\ Call(ops[e.op]).name = e.call
-             THEN {w \in StepOutcomes(e.op, e.f, Hint(e)) : NextMatches(w, e.op, e)}
+             THEN {w \in StepOutcomes(e.op, e.f, Hint(e)) : NextMatches(w, e.op, e) /\ FilterResMatches(w, e)}
              ELSE {}
       [] e.ev = "StartFilter" -> IF alive /\ e.pod \in DOMAIN pods THEN {w \in {StartFilterW(e.pod)} : NextMatches(w, e.op, e)} ELSE {}
       [] e.ev = "StartBind" -> IF alive /\ e.pod \in DOMAIN pods THEN {w \in {StartBindW(e.pod, e.node)} : NextMatches(w, e.op, e)} ELSE {}
@@ -126,7 +139,7 @@ Proposed(e) ==
       [] e.ev = "StartApiRelease" -> IF alive THEN {w \in {StartApiReleaseW(e.ip, e.key)} : NextMatches(w, e.op, e)} ELSE {}
       [] e.ev = "StartReload" -> IF alive THEN {w \in {StartReloadW} : NextMatches(w, e.op, e)} ELSE {}
       [] e.ev = "StartPoolUpsert" -> IF alive THEN {w \in {StartPoolUpsertW(e.pool, e.size, e.prealloc)} : NextMatches(w, e.op, e)} ELSE {}
-      [] e.ev = "CreatePod" -> IF e.pod \notin DOMAIN pods THEN {CreatePodW(e.pod)} ELSE {}
+      [] e.ev = "CreatePod" -> IF e.pod \notin DOMAIN pods THEN {CreatePodWR(e.pod, RangesOfLog(e.ranges))} ELSE {}
       [] e.ev = "DeletePod" -> IF e.pod \in DOMAIN pods THEN {DeletePodW(e.pod)} ELSE {}
       [] e.ev = "FinishPod" -> IF e.pod \in DOMAIN pods THEN {SetPhaseW(e.pod, "Done")} ELSE {}
       [] e.ev = "KubeletRun" -> IF e.pod \in DOMAIN pods THEN {SetPhaseW(e.pod, "Running")} ELSE {}
@@ -194,7 +207,23 @@ ImmReleasable(m, k, S, D) ==
 RetOk(e) == Has(e, "ret") /\ Has(e.ret, "ok") /\ e.ret.ok
 RetFail(e) == Has(e, "ret") /\ Has(e.ret, "ok") /\ ~e.ret.ok
 RetRes(e) == IF Has(e, "ret") /\ Has(e.ret, "res") THEN e.ret.res ELSE ""
-G0 == [bindown |-> Emp, filt |-> Emp, sizeAt |-> Emp, everRel |-> {}, apiops |-> {}, assigned |-> Emp, orphan |-> {}]
+\* win: the "nothing else changes" window of C06 -- a filter of a pod running alone, then the bind of that pod on one of
+\* the offered nodes running alone; any other event closes it
+NoWin == [k |-> "none", pod |-> "", uid |-> "", op |-> 0, nodes |-> {}, cand |-> {}, mem0 |-> Emp, node |-> "", synced |-> FALSE]
+G0 == [bindown |-> Emp, filt |-> Emp, sizeAt |-> Emp, everRel |-> {}, apiops |-> {}, assigned |-> Emp, orphan |-> {}, win |-> NoWin]
+WinNext(g, e) ==
+    LET wn == g.win IN
+    IF e.ev = "StartFilter"
+      THEN [k |-> "filter", pod |-> e.pod, uid |-> e.uid, op |-> e.op, nodes |-> {}, cand |-> ToSet(e.nodes), mem0 |-> mem, node |-> "", synced |-> FALSE]
+    ELSE IF e.ev = "Step" /\ wn.k \in {"filter", "bind"} /\ e.op = wn.op /\ e.f = 0 /\ ~Has(e, "crashed")
+      THEN IF ~Has(e, "res") THEN wn
+           ELSE IF wn.k = "filter" /\ e.res.ok THEN [wn EXCEPT !.k = "bindable", !.nodes = ToSet(e.res.nodes)]
+           ELSE NoWin
+    ELSE IF e.ev = "StartBind" /\ wn.k = "bindable" /\ e.pod = wn.pod /\ e.uid = wn.uid /\ e.node \in wn.nodes
+      THEN [wn EXCEPT !.k = "bind", !.op = e.op, !.node = e.node,
+                      \* the informer has caught up with the pod (otherwise Bind rightly refuses: cache out of date)
+                      !.synced = e.pod \in DOMAIN lpods /\ e.pod \in DOMAIN pods /\ lpods[e.pod] = pods[e.pod]]
+    ELSE NoWin
 GhostNext(e, w) ==
     LET g == ghost
         g1 == IF e.ev = "StartBind" THEN [g EXCEPT !.bindown = Put(g.bindown, e.op, KeyIPs(mem, KeyOf(pods[e.pod])))] ELSE g
@@ -217,7 +246,8 @@ GhostNext(e, w) ==
                 THEN [g4c EXCEPT !.orphan = g4c.orphan \ {e.args.ip}] ELSE g4c
         rel == {w.mem[ip].key : ip \in {x \in DOMAIN w.mem : ~IsFree(w.mem[x]) /\ w.mem[x].key.pod # "" /\
                                                               ImmReleasable(w.mem, w.mem[x].key, w.sts, w.dp)}}
-    IN [g4 EXCEPT !.everRel = (g4.everRel \cup rel) \ (IF e.ev = "CreatePod" THEN {k \in g4.everRel : k.pod = e.pod} ELSE {})]
+    IN [g4 EXCEPT !.everRel = (g4.everRel \cup rel) \ (IF e.ev = "CreatePod" THEN {k \in g4.everRel : k.pod = e.pod} ELSE {}),
+                  !.win = WinNext(g, e)]
 
 StepViolations(e, w) ==
     LET VT(name, bad, tag) == IF bad THEN {[prop |-> name, line |-> l, trace |-> tid, ev |-> e.ev, tag |-> tag,
@@ -234,6 +264,10 @@ StepViolations(e, w) ==
         rekeyed == {ip \in common : ~IsFree(mem[ip]) /\ ~IsFree(w.mem[ip]) /\ mem[ip].key # w.mem[ip].key}
         byApi == isStep /\ e.op \in ghost.apiops
         unassign == isStep /\ e.call = "UnAssignIP"
+        win == ghost.win
+        winFilterDone == isStep /\ win.k = "filter" /\ e.op = win.op /\ e.f = 0 /\ Has(e, "res") /\ e.res.ok /\ win.pod \in DOMAIN pods
+        wp == IF win.pod \in DOMAIN pods THEN pods[win.pod] ELSE NoPod
+        winHeld == IF win.pod \in DOMAIN pods THEN KeyIPs(win.mem0, KeyOf(wp)) ELSE {}
     IN
     (* ---------------- C01 *)
        V("LiveAnnotationsDisjoint",
@@ -281,6 +315,18 @@ StepViolations(e, w) ==
     \cup V("MemStoreAgree", w.alive /\ ~MemStoreAgreeExcept(w.mem, w.store, {w.fev[i].ip : i \in 1..Len(w.fev)}))
     (* ---------------- C06 *)
     \cup V("Routable", bindOk /\ \E ip \in ann : ip \notin ConfIPs(pools) \/ NodeSub[node] \notin SubnetsOf(pools, ip))
+    \cup V("IPInfoOfPool",               \* mask, gateway and vlan written with the IP are those of the IP's pool
+           bindOk /\ \E i \in 1..Len(e.args.ann) :
+               \/ i > Len(e.args.info)
+               \/ \E pl \in DOMAIN pools : e.args.ann[i] \in pools[pl].ips /\ e.args.info[i] # pools[pl].info)
+    \cup V("FilterImpliesBind",          \* filter offered the node, nothing else happened, no fault: bind succeeds (or waits for the old pod)
+           isStep /\ win.k = "bind" /\ e.op = win.op /\ e.f = 0 /\ win.synced /\ Has(e, "res") /\ ~e.res.ok /\ ~e.res.wait)
+    \cup V("HolderOfferedRoutableOnly",  \* a pod that already holds an IP is only offered nodes from which that IP is routable
+           winFilterDone /\ \E n \in ToSet(e.res.nodes) : \E ip \in winHeld : NodeSub[n] \notin SubnetsOf(pools, ip))
+    \cup V("FreshOfferedExactly",        \* a fresh default-policy pod is offered exactly the candidates with a free routable IP
+           winFilterDone /\ winHeld = {} /\ wp.policy = 0 /\ wp.pool = "" /\ Len(wp.ranges) = 0 /\
+           ToSet(e.res.nodes) # {n \in win.cand : \E ip \in ConfIPs(pools) \cap DOMAIN win.mem0 :
+                                                     IsFree(win.mem0[ip]) /\ NodeSub[n] \in SubnetsOf(pools, ip)})
     (* ---------------- C07 *)
     \cup V("PoolCap",
            w.alive /\ alive /\ \E pl \in DOMAIN poolobj :
@@ -316,7 +362,7 @@ StepViolations(e, w) ==
 
 Init ==
     /\ l = 1 /\ tid = 0 /\ lastlog = Emp /\ viol = {} /\ div = {} /\ ghost = G0
-    /\ stats = [events |-> 0, traces |-> 0, conform |-> 0, skipped |-> 0]
+    /\ stats = [events |-> 0, traces |-> 0, conform |-> 0, skipped |-> 0, winfilter |-> 0, winfresh |-> 0, winholder |-> 0, winbind |-> 0, winbindwait |-> 0]
     /\ mem = Emp /\ store = Emp /\ pools = Emp /\ clock = 100 /\ pods = Emp /\ lpods = Emp /\ pevq = <<>> /\ work = <<>>
     /\ sts = Emp /\ dp = Emp /\ poolobj = Emp /\ cm = 1 /\ cloud = Emp /\ ops = Emp /\ podlock = Emp /\ dplock = Emp
     /\ nscache = Emp /\ fev = <<>> /\ alive = TRUE /\ loaded = 1 /\ filtered = Emp
@@ -338,6 +384,18 @@ Reset(e) ==
     /\ viol' = viol /\ div' = div /\ ghost' = G0
     /\ stats' = [stats EXCEPT !.traces = @ + 1, !.events = @ + 1]
 
+\* how often the C06 predicates had their antecedent (coverage, reported with the verdict)
+WinStats(st, e) ==
+    LET win == ghost.win
+        fd == e.ev = "Step" /\ win.k = "filter" /\ e.op = win.op /\ e.f = 0 /\ Has(e, "res") /\ e.res.ok /\ win.pod \in DOMAIN pods
+        wp == IF win.pod \in DOMAIN pods THEN pods[win.pod] ELSE NoPod
+        held == IF win.pod \in DOMAIN pods THEN KeyIPs(win.mem0, KeyOf(wp)) ELSE {}
+        bd == e.ev = "Step" /\ win.k = "bind" /\ e.op = win.op /\ e.f = 0 /\ win.synced /\ Has(e, "res")
+        b(x) == IF x THEN 1 ELSE 0 IN
+    [st EXCEPT !.winfilter = @ + b(fd), !.winholder = @ + b(fd /\ held # {}),
+               !.winfresh = @ + b(fd /\ held = {} /\ wp.policy = 0 /\ wp.pool = "" /\ Len(wp.ranges) = 0),
+               !.winbind = @ + b(bd), !.winbindwait = @ + b(bd /\ ~e.res.ok /\ e.res.wait)]
+
 Skippable(e) ==      \* lines of operations the model dropped after a divergence, or cut by a crash
     \/ e.ev = "Step" /\ e.op \notin DOMAIN ops
     \/ Has(e, "crashed")
@@ -350,12 +408,12 @@ Event(e) ==
          THEN LET w == FromLog(e) IN
               /\ SetWorld(w) /\ div' = div /\ ghost' = GhostNext(e, w)
               /\ viol' = viol \cup StepViolations(e, w)
-              /\ stats' = [stats EXCEPT !.events = @ + 1, !.skipped = @ + 1]
+              /\ stats' = [WinStats(stats, e) EXCEPT !.events = @ + 1, !.skipped = @ + 1]
          ELSE IF good # {}
            THEN \E w \in good :
                   /\ SetWorld(w) /\ div' = div /\ ghost' = GhostNext(e, w)
                   /\ viol' = viol \cup StepViolations(e, w)
-                  /\ stats' = [stats EXCEPT !.events = @ + 1, !.conform = @ + 1]
+                  /\ stats' = [WinStats(stats, e) EXCEPT !.events = @ + 1, !.conform = @ + 1]
            ELSE LET w == FromLog(e) IN
                 /\ SetWorld(w) /\ ghost' = GhostNext(e, w)
                 /\ div' = div \cup {[line |-> l, trace |-> tid, ev |-> e.ev, call |-> IF Has(e, "call") THEN e.call ELSE "",
@@ -364,7 +422,7 @@ Event(e) ==
                                      model |-> IF Proposed(e) = {} THEN <<>> ELSE LET x == CHOOSE y \in Proposed(e) : TRUE IN
                                                [k \in Diff(x, e) |-> IF k = "mem" THEN Strip(x.mem) ELSE IF k = "store" THEN Strip(x.store) ELSE x[k]]]}
                 /\ viol' = viol \cup StepViolations(e, w)
-                /\ stats' = [stats EXCEPT !.events = @ + 1]
+                /\ stats' = [WinStats(stats, e) EXCEPT !.events = @ + 1]
 
 Next ==
     /\ l <= Len(Trace)
